@@ -92,6 +92,10 @@ def cycles(tier, rng):
         sub = rng.sample(range(p.n), min(p.n, p.k + (2 if p.codec == 3 else 0)))
         execs.append(gen.decode_exec(p, sub, api="recv", finish=True, probe="end"))
         execs.append(gen.decode_exec(p, sorted(rng.sample(range(p.n), p.k)), api="setavail", finish=True, probe="end", cb="buf"))
+        # the third role the API offers: an OF_ENCODER_AND_DECODER instance accepts the same parameters and must then
+        # be usable for either job
+        execs.append(gen.encode_exec(p, both=True))
+        execs.append(gen.decode_exec(p, sub, api=rng.choice(["recv", "setavail"]) if sub == sorted(sub) else "recv", finish=True, probe="end", both=True))
     return execs
 
 
